@@ -1,21 +1,22 @@
 """C09 - kernels compose blockwise and keep the model state coherent."""
 from pyvc.api import *
 from contracts.common import KERNELS, model_stub, sym_da_state, sym_epoch_state, sym_kernel
-from contracts.c07 import KS, ghost_kernel
+from contracts.c07 import IDENTS, KS, ghost_kernel
 from contracts.c11 import blackjax_models
 
 IFACE = "liesel/goose/interface.py"
 GIBBS = "liesel/goose/gibbs.py"
 
 
-@unit("C09.threading", "C09", [f"{KS}::KernelSequence.transition"], assumptions=["kernel count 3 in this unit (C07.kernel_sequence covers 1..3)"])
+@unit("C09.threading", "C09", [f"{KS}::KernelSequence.__init__", f"{KS}::KernelSequence.transition"], assumptions=["kernel count 3 in this unit (C07.kernel_sequence covers 1..3)"])
 def u_threading(ip):
     """within an iteration the kernels run in the configured order and kernel i starts from the model state returned by
     kernel i-1; the sequence returns the last kernel's state."""
     c = ip.ctx
     n = 3
     trace = []
-    seq = new_obj(ip, f"{KS}::KernelSequence", _kernels=[ghost_kernel(ip, i, trace) for i in range(n)])
+    # built by the REAL constructor from kernels whose identifiers are not in alphabetical order
+    seq = ip.call(ip.repo(f"{KS}::KernelSequence"), [[ghost_kernel(ip, i, trace, IDENTS[i]) for i in range(n)]], {})
     key, ms, ep = z3.Const("key", U), z3.Const("ms", U), sym_epoch_state(ip)
     res = ip.call(method(ip, seq, "transition"), [key, [z3.Const(f"ks{i}", U) for i in range(n)], ms, ep], {})
     expect = ms
@@ -65,7 +66,10 @@ def frame_unit(kind):
         # blackjax: the new position is a dict with the same keys as the initial position (A-BJX)
         if kind in ("HMC", "NUTS"):
             def kernel_factory(ip_, **kw):
+                c.ghost["bj_kwargs"] = kw
+
                 def step(ip2, key, state):
+                    c.ghost["bj_step_state"] = state
                     pos0 = state.attrs["position"]
                     st = PyObj("bj_state", position={k: ip2.uf("bj_new_" + k, ip2.to_U(key), ip2.to_U(pos0)) for k in pos0})
                     info = PyObj("bj_info", **{n: z3.Const("bj_" + n, U) for n in ("is_divergent", "num_trajectory_expansions", "is_turning", "num_integration_steps", "is_accepted", "acceptance_rate")})
@@ -74,7 +78,7 @@ def frame_unit(kind):
             for nm in ("blackjax.nuts", "blackjax.hmc"):
                 ip.models[nm] = kernel_factory
             for nm in ("blackjax.mcmc.nuts.init", "blackjax.mcmc.hmc.init"):
-                ip.models[nm] = lambda ip_, pos, fn_: PyObj("bj_state0", position=pos)
+                ip.models[nm] = lambda ip_, pos, fn_: PyObj("bj_state0", position=pos, logdensity_fn=fn_)
         ms = z3.Const("given_state", U)
         if kind == "Gibbs":
             user = PyFn(lambda ip_, key, st: {k: ip_.uf("gibbs_draw_" + k, ip_.to_U(key), ip_.to_U(st)) for k in keys}, "transition_fn")
@@ -82,7 +86,20 @@ def frame_unit(kind):
             out = ip.call(method(ip, k, "transition"), [z3.Const("key", U), {}, ms, sym_epoch_state(ip)], {})
         else:
             k = sym_kernel(ip, kind, keys=keys)
-            out = ip.call(method(ip, k, "_standard_transition"), [z3.Const("key", U), sym_da_state(ip, kind), ms, sym_epoch_state(ip)], {})
+            ks_in = sym_da_state(ip, kind)
+            out = ip.call(method(ip, k, "_standard_transition"), [z3.Const("key", U), ks_in, ms, sym_epoch_state(ip)], {})
+            if kind in ("HMC", "NUTS"):
+                kw = c.ghost.get("bj_kwargs", {})
+                c.oblige("blackjax_gets_current_step_size_and_metric", kw.get("step_size") is ks_in.f["step_size"] and kw.get("inverse_mass_matrix") is ks_in.f["inverse_mass_matrix"])
+                probe = {k_: z3.Const(f"probe_{k_}", U) for k_ in keys}
+                mdl = k.f["_model"]
+                want = ip.call(mdl.attrs["log_prob"], [ip.call(mdl.attrs["update_state"], [probe, ms], {})], {})
+                fn_ = kw.get("logdensity_fn")
+                c.oblige("blackjax_density_is_model_log_prob_at_given_state", fn_ is not None and ip.call(fn_, [probe], {}) == want)
+                st0 = c.ghost.get("bj_step_state")
+                pos_want = ip.call(mdl.attrs["extract_position"], [keys, ms], {})
+                c.oblige("blackjax_starts_from_current_position", st0 is not None and isinstance(st0.attrs.get("position"), dict) and list(st0.attrs["position"]) == list(keys)
+                         and all(st0.attrs["position"][k_].eq(pos_want[k_]) for k_ in keys))
         new = out.f["model_state"]
         if is_z3(new) and new.eq(ms):
             c.cover("unchanged")
@@ -196,3 +213,55 @@ def u_log_prob_fn(ip):
     k.f["_model"] = None
     kind, e = try_call(ip, method(ip, k, "position"), [ms])
     c.oblige("no_model_rejected", kind == "raise" and e.cls == "RuntimeError")
+
+
+@unit("C09.kernel_sequence_init", "C09", [f"{KS}::KernelSequence.__init__", f"{KS}::KernelSequence.get_kernels"])
+def u_ks_init(ip):
+    """the constructor accepts exactly the kernel lists whose identifiers are non-empty and pairwise distinct (RuntimeError otherwise) and keeps
+    the kernels in the configured order, whatever their identifiers."""
+    c = ip.ctx
+    cls = ip.repo(f"{KS}::KernelSequence")
+    for tag, idents, ok in (("unsorted", ["zeta", "alpha", "mid"], True), ("auto", ["kernel_00", "kernel_100", "kernel_11"], True), ("single", ["k"], True),
+                            ("duplicate", ["a", "b", "a"], False), ("empty_identifier", ["a", ""], False)):
+        ks = [PyObj(f"k{i}", identifier=idt, position_keys=(f"p{i}",)) for i, idt in enumerate(idents)]
+        kind, r = try_call(ip, cls, [list(ks)])
+        if ok:
+            got = ip.call(method(ip, r, "get_kernels"), [], {}) if kind == "ok" else None
+            c.oblige(f"{tag}.accepted_and_order_kept", kind == "ok" and isinstance(got, list) and len(got) == len(ks) and all(got[i] is ks[i] for i in range(len(ks))))
+        else:
+            c.oblige(f"{tag}.rejected_with_runtime_error", kind == "raise" and r.cls == "RuntimeError")
+
+
+BUILDER = "liesel/goose/builder.py::EngineBuilder"
+
+
+@unit("C09.builder_kernel_order", "C09", [f"{BUILDER}.add_kernel", f"{BUILDER}.kernels.fget", f"{BUILDER}.build"],
+      assumptions=["slice: the identifier-assignment loop of build() and the keyword wiring of its return statement"], summaries=["KernelSequence.__init__ (C09.kernel_sequence_init)"])
+def u_builder_kernels(ip):
+    """kernels reach the engine in the order in which they were added: add_kernel appends, the kernels property lists them in that order,
+    build() gives an identifier only to kernels that have none (kernel_<index>, two digits) without reordering, and hands
+    KernelSequence(self.kernels) to the engine."""
+    c = ip.ctx
+    b = new_obj(ip, BUILDER, _kernels=[])
+    ks = [PyObj(f"k{i}", identifier=idt, position_keys=(f"p{i}",)) for i, idt in enumerate(["zeta", "", "alpha", ""])]
+    for k in ks:
+        ip.call(method(ip, b, "add_kernel"), [k], {})
+    got = ip.getattr(b, "kernels")
+    c.oblige("kernels_listed_in_order_added", isinstance(got, tuple) and len(got) == 4 and all(got[i] is ks[i] for i in range(4)))
+    env, lines, sig = exec_slice(ip, f"{BUILDER}.build", {}, lambda s_: isinstance(s_, ast.For) and "kernel_" in ast.dump(s_), lambda s_: isinstance(s_, ast.For) and "kernel_" in ast.dump(s_), self_obj=b)
+    got = ip.getattr(b, "kernels")
+    c.oblige("order_unchanged_by_identifier_assignment", isinstance(got, tuple) and len(got) == 4 and all(got[i] is ks[i] for i in range(4)))
+    c.oblige("given_identifiers_kept_missing_ones_numbered", [ip.getattr(k, "identifier") for k in ks] == ["zeta", "kernel_01", "alpha", "kernel_03"])
+    clo = ip.repo(f"{BUILDER}.build")
+    ret = [n_ for n_ in ast.walk(clo.node) if isinstance(n_, ast.Return)][-1]
+    kw = {k.arg: k.value for k in ret.value.keywords}
+    c.oblige("engine_gets_kernel_sequence_of_builder_kernels", ast.unparse(kw.get("kernel_sequence")) == "KernelSequence(self.kernels)" if kw.get("kernel_sequence") is not None else False, structural=True)
+
+
+# observational form of "after every transition all derived quantities equal those recomputed from the stored parameter values": the state
+# returned by update_state (what every kernel hands to its successor) is node by node the state a fresh model reaches by direct assignment
+# and a full update - same harness as C03's, on the shapes where a partial refresh shows (leaf node / direct consumer of a value node)
+from contracts.c03 import liesel_unit  # noqa: E402
+
+liesel_unit("direct", uid="C09.coherent_state.direct", prop="C09")
+liesel_unit("diamond", auto_update=False, uid="C09.coherent_state.diamond.auto_update_off", prop="C09")
